@@ -1949,6 +1949,21 @@ fn impl_vertcat_fxn(arguments: &Vec<Value>) -> MResult<Box<dyn MechFunction>> {
   #[cfg(feature = "u128")]
   { if ValueKind::is_compatible(target_kind.clone(), ValueKind::U128){ return impl_vertcat_arms!(u128, arguments, u128::default()) } }
 
+  #[cfg(feature = "i8")]
+  { if ValueKind::is_compatible(target_kind.clone(), ValueKind::I8)  { return impl_vertcat_arms!(i8,  arguments, i8::default()) } }
+
+  #[cfg(feature = "i16")]
+  { if ValueKind::is_compatible(target_kind.clone(), ValueKind::I16) { return impl_vertcat_arms!(i16, arguments, i16::default()) } }
+
+  #[cfg(feature = "i32")]
+  { if ValueKind::is_compatible(target_kind.clone(), ValueKind::I32) { return impl_vertcat_arms!(i32, arguments, i32::default()) } }
+
+  #[cfg(feature = "i64")]
+  { if ValueKind::is_compatible(target_kind.clone(), ValueKind::I64) { return impl_vertcat_arms!(i64, arguments, i64::default()) } }
+
+  #[cfg(feature = "i128")]
+  { if ValueKind::is_compatible(target_kind.clone(), ValueKind::I128){ return impl_vertcat_arms!(i128, arguments, i128::default()) } }
+
   #[cfg(feature = "bool")]
   { if ValueKind::is_compatible(target_kind.clone(), ValueKind::Bool) { return impl_vertcat_arms!(bool, arguments, bool::default()) } }
 
